@@ -18,6 +18,8 @@ type Spec struct {
 	ThoroughTimeout time.Duration
 	QuickFloor      int
 	ThoroughFloor   int
+	// CaseTimeout is the per-case wall-clock watchdog (default 30 s); firing is inconclusive.
+	CaseTimeout time.Duration
 	// RequiredCounters must be non-zero (oracle counters or hook hits) or the run is inconclusive.
 	RequiredCounters []string
 	Rule             string
